@@ -20,6 +20,13 @@ def main():
     except core.Infra as ex:
         print(f"INFRA: {ex}", file=sys.stderr)
         rc = 2
+    except BaseException as ex:      # a crash of the machinery is never a verdict
+        if isinstance(ex, SystemExit):
+            raise
+        import traceback
+        traceback.print_exc()
+        print(f"INFRA: check crashed: {type(ex).__name__}: {ex}", file=sys.stderr)
+        rc = 2
     sys.exit(rc)
 
 
